@@ -21,7 +21,7 @@ func init() {
 	register("C19", propMeta{
 		Level: "proof",
 		Explanation: "Three obligations families, all discharged statically for every route, method and body: R19a in api.ReadOnly the wrapped handler is invoked only on edges establishing r.Method ∈ {GET, HEAD, OPTIONS}, and no code of the repository assigns http.Request.Method; R19b in api.NewRouter, on every path where readOnly may be true, mux.Use(ReadOnly) precedes every route registration on the root mux, and the versioned routers are built only inside api.NewRouter (which is the only router the server module mounts); " +
-			"R19d the method the gate tests is the one the router dispatches on: no repository function stores into http.Request.Method or chi.Context.RouteMethod (constant safe verbs excepted) or uses a third-party function that does; R19c the route table of both API versions is extracted from the chi registration calls (all functions of the repository that call chi.Router methods); for every handler registered for a safe method (Get/Head/Options), for every method-agnostic registration (Handle, HandleFunc, Method*, NotFound, MethodNotAllowed) and for every middleware (Use/With), the set of functions reachable from the handler value (static calls, function values created or referenced, implementations of repository interfaces) contains no write sink: invoke of backend.Ledger.{CreateTransaction,RevertTransaction,SaveMeta,DeleteMetadata}, ProcessBulk, the Commander write methods, Batcher.Append. Obligations = registrations × sinks; floors require that Post/Delete routes do reach each write method (so the extraction is not vacuous).",
+			"R19e the switch reaches the router: api.Config.ReadOnly is read from the configuration registry under a constant key, and every command-line flag of that name is declared on a flag set that is bound to the registry (viper.BindPFlags on the same command and flag-set kind, or BindPFlag) — otherwise `serve --read-only` runs without the gate; R19d the method the gate tests is the one the router dispatches on: no repository function stores into http.Request.Method or chi.Context.RouteMethod (constant safe verbs excepted) or uses a third-party function that does; R19c the route table of both API versions is extracted from the chi registration calls (all functions of the repository that call chi.Router methods); for every handler registered for a safe method (Get/Head/Options), for every method-agnostic registration (Handle, HandleFunc, Method*, NotFound, MethodNotAllowed) and for every middleware (Use/With), the set of functions reachable from the handler value (static calls, function values created or referenced, implementations of repository interfaces) contains no write sink: invoke of backend.Ledger.{CreateTransaction,RevertTransaction,SaveMeta,DeleteMetadata}, ProcessBulk, the Commander write methods, Batcher.Append. Obligations = registrations × sinks; floors require that Post/Delete routes do reach each write method (so the extraction is not vacuous).",
 		NotDecided:  "ledger creation (POST /v2/{ledger}, v1 auto-create middleware) is not one of the four writes named by the property and is not covered.",
 		Trusted: []string{"chi: a route registered with Get/Head/Options is dispatched for that method only; Use middlewares wrap every route registered afterwards on that mux, including mounted sub-routers", "net/http sets Request.Method from the request line",
 			"go/types + go/ssa; calls through standard-library interfaces (http.Handler.ServeHTTP of the next handler) are routing, not reachability"},
@@ -307,6 +307,7 @@ func runC19(c *Ctx) {
 	// ---- R19b: installed first
 	ruleR19b(c)
 	ruleR19d(c)
+	ruleR19e(c)
 
 	// ---- R19c
 	regs := chiRegistrations(c)
